@@ -359,9 +359,19 @@ func (e *Entry) errorf(format string, v ...interface{}) {
 
 // addError appends err to the list of errors on e if err is not nil.
 func (e *Entry) addError(err error) {
-	if err != nil {
-		e.Errors = append(e.Errors, err)
+	if err == nil {
+		return
 	}
+	// The same error value arrives more than once when the errors of a
+	// used grouping are imported at every level of nesting: recording it
+	// again each time doubled the list per level (2^k values for a chain
+	// of k groupings below one bad leaf).
+	for _, o := range e.Errors {
+		if o == err {
+			return
+		}
+	}
+	e.Errors = append(e.Errors, err)
 }
 
 // importErrors imports all the errors from c and its children into e.
